@@ -493,3 +493,125 @@ def _pjob(job):
         return partition_case(F, parse_item, err_item, part_item, inst, text, owned)
     except RecursionError:
         return {"unanalysable": "recursion limit"}
+
+
+# ---------------------------------------------------------------------------------------------------------------------
+# C01.text: from the text to the language of the program, end to end
+
+_TG = None
+
+
+def _tjob(text):
+    from . import exhaust
+    F, J, parse_item, err_item = _TG
+    stubs = N.stubs()
+    if err_item is not None:
+        stubs[err_item.qname] = lambda I, a, fn, e: Adt("parse-error", "ParseError", {})
+    I = Interp(F, stubs, fuel=2000000)
+    try:
+        cases = I.explore(lambda: I.call_item(parse_item, [text], inst=False))
+    except RecursionError:
+        return {"text": text, "status": "unanalysable", "what": "recursion limit in the parser"}
+    if I.tops or len(cases) != 1:
+        return {"text": text, "status": "unanalysable", "what": "the parser: %s" % (I.tops[:1] or len(cases),)}
+    r = strip(cases[0].result)
+    if not (isinstance(r, Adt) and r.variant == "Ok"):
+        return {"text": text, "status": "rejected"}
+    tz = strip(r.fields["0"])
+    try:
+        toks = list(_list(strip(strip(strip(tz.fields["token"]).fields["topology"]).fields["0"]).fields["0"]))
+    except (ValueError, KeyError, AttributeError) as ex:
+        return {"text": text, "status": "unanalysable", "what": "parse result shape: %s" % ex}
+    try:
+        return exhaust.judge_semantics(J, text, toks)
+    except RecursionError:
+        return {"text": text, "status": "unanalysable", "what": "recursion limit"}
+
+
+def text_semantics_catalogue(tier):
+    """Accepted-looking texts that carry what the token catalogue of C01.whole lacks: flags anywhere, classes, escapes,
+    multi-byte text, the README's examples."""
+    out = []
+    for t in parseref.catalogue("quick"):
+        if t == "" or len(t) > 24:
+            continue
+        if not any(x in t for x in ("(?", "[", "\\", "é", "愛", "$")):
+            continue
+        if parseref.read(t) in (parseref.REJECT, parseref.DONTCARE):
+            continue
+        out.append(t)
+    if tier != "thorough":
+        out = [t for i, t in enumerate(sorted(out)) if i % 3 == 0 or len(t) <= 8] + [t for t in parseref.EXTRA_OK if parseref.read(t) not in (parseref.REJECT, parseref.DONTCARE)]
+    # outside the automaton construction: bounds of two digits; a descending class range (matches nothing: C05.syntax)
+    import re as _re
+    return sorted(t for t in set(out) if not _re.search(r"[0-9]{2}", t) and "z-a" not in t)
+
+
+def judged_semantics(F, tier):
+    from . import exhaust
+    texts = text_semantics_catalogue(tier)
+    h = hashlib.sha256(_sources_hash().encode())
+    base = os.path.dirname(os.path.dirname(os.path.abspath(__file__)))
+    for rel in ("rules/exhaust.py", "rules/encoder.py", "rx.py", "rxc.py", "rules/tokens.py"):
+        with open(os.path.join(base, rel), "rb") as f:
+            h.update(f.read())
+    key = "sem-%s-%s-%s" % (os.path.basename(F.path).replace(".json", ""), tier, h.hexdigest()[:16])
+    os.makedirs(CACHE, exist_ok=True)
+    cp = os.path.join(CACHE, key + ".json")
+    if os.path.exists(cp) and os.environ.get("VERIF_NO_CACHE") != "1":
+        try:
+            with open(cp) as f:
+                d = json.load(f)
+            if [r["text"] for r in d] == texts:
+                return d
+        except Exception:
+            pass
+    parse_item = F.find("token::parse::parse", optional=True)
+    if parse_item is None:
+        return None
+    err_item = None
+    for cand in F.items.values():
+        if cand.qname.startswith("token::parse::ParseError") and cand.name == "new":
+            err_item = cand
+    global _TG
+    _TG = (F, exhaust.Judge(F), parse_item, err_item)
+    sys.setrecursionlimit(20000)
+    import multiprocessing as mp
+    with mp.get_context("fork").Pool(min(16, os.cpu_count() or 4)) as pool:
+        d = pool.map(_tjob, texts, chunksize=8)
+    tmp = cp + ".%d.tmp" % os.getpid()
+    with open(tmp, "w") as f:
+        json.dump(d, f)
+    os.replace(tmp, cp)
+    return d
+
+
+def report_semantics(F, R, rule, tier, floor):
+    """C01.text: for texts with flags, classes, escapes and multi-byte characters the whole route - parser (THIR, nom
+    model), rule checker, encode::compile - is evaluated and the program text it arrives at is compared, as an
+    automaton, with the language the README gives to the tokens (exhaust.reference_regex: literals under their own case
+    flag, classes case-sensitive and separator-free, ...)."""
+    d = judged_semantics(F, tier)
+    if d is None:
+        R.anchor_missing(rule, "token::parse::parse")
+        return
+    n = decided = 0
+    bad = []
+    for r in d:
+        n += 1
+        st = r.get("status")
+        if st in ("sound", "explained"):
+            decided += 1
+            R.ok(rule, "`%s`" % r["text"], r.get("verdict", ""), "src/encode.rs", sample=(decided % 199 == 1))
+        elif st == "unsound":
+            decided += 1
+            bad.append((r["text"], "`%s`: %s (program %s, reference %s)" % (r["text"], r.get("why"), r.get("pattern"), r.get("reference"))))
+        elif st == "unanalysable":
+            bad.append((r["text"], "`%s` could not be evaluated: %s" % (r["text"], r.get("what"))))
+    bad.sort(key=lambda x: (len(x[0]), x[0]))
+    for text, msg in bad[:8]:
+        R.fail(rule, "%s~%s" % (text, hashlib.sha1(text.encode()).hexdigest()[:6]), msg + (" [%d texts deviate; the shortest are reported]" % len(bad) if len(bad) > 8 else ""), "src/encode.rs")
+    for text, msg in bad[8:]:
+        R.obligations.append((rule, text, False, msg))
+    R.floor(rule, "texts taken from the parser to the program", n, floor)
+    R.floor(rule, "texts whose program was compared with the reference language", decided, floor // 3)
